@@ -234,12 +234,15 @@ def h_hit_equals_miss(opname):
         f = _ops()[opname]
         _set_opts(K, 's')
         a, b = call(f), call(f)
-        if not K.check(_outcome(K, a) == _outcome(K, b), 'cache hit differs from cache miss', op=opname):
+        ob = _outcome(K, b)        # taken now: b itself may share storage with a
+        if not K.check(_outcome(K, a) == ob, 'cache hit differs from cache miss', op=opname):
             return False
         if a.ok and hasattr(a.value, '_bitstore') and isinstance(a.value, bitstring.BitArray) and len(a.value):
             a.value.invert()
+            if not K.check(_outcome(K, b) == ob, 'mutating one result changed another result of the same call', op=opname):
+                return False
             c = call(f)
-            return K.check(_outcome(K, c) == _outcome(K, b), 'mutating an earlier result changed what a later identical call returns', op=opname)
+            return K.check(_outcome(K, c) == ob, 'mutating an earlier result changed what a later identical call returns', op=opname)
         return True
     return h
 
